@@ -28,6 +28,7 @@ type Config struct {
 	CtxBound   int  // max preemptive context switches (symbolic scheduler)
 	EnvFires   int  // max environment (ticker/timer) firings per path
 	NPBound    int  // max free scheduling choices at blocking points per path (0 = unbounded)
+	Race       bool // happens-before race monitor
 	EnvLazy    bool // tickers/timers fire only when every goroutine is blocked (no "fires now" choice)
 	Solver     string
 	TimeoutMS  int
@@ -164,6 +165,9 @@ type Run struct {
 	onces map[*Value]bool
 	curFrame *frame
 	stubs    map[string]bool
+	shadow   map[interface{}]*shadowCell
+	racesSeen map[string]bool
+	syncVC   map[interface{}]vclock
 	lazyAxioms []*Term
 	lazyAxiomKeys []*Term
 	timersQuiet bool
